@@ -75,6 +75,12 @@ def gen_inputs(ctx):
     for i in range(m // 2):
         t = conts[i % len(conts)]
         yield {"kind": "ctor", "t": t, "v": gen_value(rng, t, cap=5)}
+    # default-constructed values and one view bound to several positions: their trees bind the SAME node object on both
+    # sides of many pairs
+    for i in range(m // 3):
+        k = rng.choice(["vec", "vec", "bitvec", "bytevec", "twice"])
+        yield {"kind": "defaults", "shape": k, "n": rng.choice([5, 8, 9, 16, 33, 64, 100, 600, 1000]),
+               "w": rng.choice([1, 2, 8, 32]), "idx": rng.randrange(0, 1 << 20)}
     # slice assignment of already hashed composite values (fresh views, or child views sliced out of another list)
     for i in range(m // 3):
         n = rng.choice([2, 3, 4, 5, 7, 8])
@@ -434,7 +440,58 @@ def build_sliceshare_case(inp):
     return cs
 
 
+def build_defaults_case(inp):
+    """model-free: a hashed value hashes nothing when asked again (also through a copy / a view re-created from its
+    backing), and one write costs no more than its path — also when the tree binds one node object on both sides of
+    its pairs (default values, one view assigned to several positions)"""
+    why = None
+    try:
+        k, n, w = inp["shape"], inp["n"], inp["w"]
+        if k == "vec":
+            t = ["vec", ["uint", w], n]
+            x = T(t)()
+            wr = lambda y: y.__setitem__(inp["idx"] % n, 1)  # noqa
+        elif k == "bitvec":
+            t = ["bitvec", max(n, 2)]
+            x = T(t)()
+            wr = lambda y: y.__setitem__(inp["idx"] % max(n, 2), True)  # noqa
+        elif k == "bytevec":
+            t = ["vec", ["bytevec", 48], max(2, n % 40)]
+            x = T(t)()
+            wr = lambda y: y.__setitem__(inp["idx"] % max(2, n % 40), b"\x01" * 48)  # noqa
+        else:
+            et = ["cont", [["uint", 8], ["uint", 8]]]
+            t = ["list", et, 64]
+            p = to_py(et, [inp["idx"] + 1, 7])
+            x = T(t)(*[p] * (2 + n % 14))
+            wr = lambda y: y.__setitem__(inp["idx"] % (2 + n % 14), to_py(et, [3, 4]))  # noqa
+        x.hash_tree_root()
+        with Counter() as c:
+            x.hash_tree_root()
+        if c.n != 0:
+            why = "a second hash_tree_root() of an unchanged %s value took %d hashes" % (k, c.n)
+        with Counter() as c:
+            x.copy().hash_tree_root()
+            type(x).view_from_backing(x.get_backing()).hash_tree_root()
+        if c.n != 0 and why is None:
+            why = "hash_tree_root() of a copy / re-created view of a hashed %s value took %d hashes" % (k, c.n)
+        depth = type(x).tree_depth()
+        wr(x)
+        with Counter() as c:
+            x.hash_tree_root()
+        if c.n > depth + 2 and why is None:
+            why = "the root after one write into a hashed %s value (tree depth %d) took %d hashes" % (k, depth, c.n)
+    except Exception as e:  # noqa
+        why = "default-value hashing scenario raised %r" % (e,)
+    cs = Case(inp, "(R \"00\", false, (OpSummarize 1%N), (0%N, 0%N, 0%N))", [True, b"\x00", [], True, True, True, 0], NAMES,
+              nontrivial=True, kind="defaults:" + inp["shape"])
+    cs.why = why
+    return cs
+
+
 def build(inp):
+    if inp["kind"] == "defaults":
+        return build_defaults_case(inp)
     if inp["kind"] == "sliceshare":
         return build_sliceshare_case(inp)
     if inp["kind"] == "ctor":
